@@ -3653,7 +3653,11 @@ debug={debug},
             linespec_re = re.compile(linespec)
         elif exactmatch:
             # Return objects whose text attribute matches linespec exactly
-            linespec_re = re.compile("^(?:%s)$" % linespec)
+            if isinstance(linespec, re.Pattern):
+                # format the expression text, not the repr() of the compiled object
+                linespec_re = re.compile("^(?:%s)$" % linespec.pattern, linespec.flags)
+            else:
+                linespec_re = re.compile("^(?:%s)$" % linespec)
 
         return list(
             filter(lambda obj: linespec_re.search(obj.text), self.config_objs),
